@@ -51,7 +51,8 @@ def gen_scn(r):
     body = [r.choice([1, 7, 100, 9000]) for _ in range(r.choice([0, 1, 1, 2, 3]))]
     s = {'overwrite': r.random() < 0.6, 'overwrite_part': r.random() < 0.4,
          'rm_part_on_exc': r.random() < 0.75, 'text_mode': r.random() < 0.4,
-         'file_perms': r.choice([None, None, 0o600, 0o644, 0o755]),
+         'file_perms': r.choice([None, None, 0o600, 0o644, 0o755, 0o666, 0o777, 0o400]),
+         'dest_mode': r.choice([0o664, 0o664, 0o666, 0o600, 0o777]),
          'umask': r.choice([0, 0o022, 0o077]), 'dest': r.choice(['absent', 'present']),
          'part': r.choice(['absent', 'absent', 'present']), 'writes': body,
          'flush': [i for i in range(len(body)) if r.random() < 0.25]}
@@ -95,6 +96,12 @@ def judge(scn, res, fault_events, stats):
     stats.monitor_evals += 1
 
     if exc is None:
+        # the operating system reported an error at a step of the save proper (not at a read-only probe or at a
+        # best-effort clean-up): the caller must hear about it, whatever the file ends up containing
+        reported = [n for n in fault_names if n in ('open', 'chmod', 'write', 'flush', 'fsync', 'close', 'rename', 'link')]
+        if reported:
+            out.append(('error-swallowed', 'the OS reported an error at %r but the save returned normally '
+                        '(destination now %r...)' % (reported, after['dest'] and after['dest']['bytes'][:20])))
         # returned normally => complete publication, regardless of what was injected
         if after['dest'] is None or after['dest']['bytes'] != want:
             out.append(('silent-failure', 'save returned normally but the destination holds %r... '
@@ -202,8 +209,8 @@ def check_scenario(fu, scn, stats, viol, pairs):
         res = F.run_in_process(fu, scn, d, faults=faults)
         delivered = [k for k, _n, _e in res['injected']]
         stats.evaluations += 1
-        if faults and len(delivered) == len(faults):
-            stats.see((repr(sorted(scn.items())), tuple(sorted(faults.items()))))
+        if faults and (len(delivered) == len(faults) or ('persist' in faults and delivered)):
+            stats.see((repr(sorted(scn.items())), repr(sorted(faults.items(), key=repr))))
             for k, name, e in res['injected']:
                 stats.count('fault:%s:%s' % (name, errno.errorcode.get(e, e)))
         probs = judge(scn, res, delivered, stats)
@@ -215,7 +222,8 @@ def check_scenario(fu, scn, stats, viol, pairs):
         for key, msg in probs:
             names = [res['log'][k][0] for k in delivered if k < len(res['log'])]
             sig = key + (':fault-at-' + names[-1] if names else ':no-fault')
-            viol(sig, msg, {'scn': scn, 'faults': [[k, e] for k, e in (faults or {}).items()]})
+            viol(sig, msg, {'scn': scn, 'faults': [[k, list(e) if isinstance(e, tuple) else e]
+                                                   for k, e in (faults or {}).items()]})
         shutil.rmtree(d, ignore_errors=True)
         return res
 
@@ -228,6 +236,9 @@ def check_scenario(fu, scn, stats, viol, pairs):
                           'outcome': repr(res0['exc']) if res0['exc'] else 'completed'})
         # singles: the event sequence after a fault can differ, but positions <= k are the same
         for k, ev in enumerate(log):
+            if ev[0] in ('write', 'flush', 'fsync', 'close'):
+                one({'persist': (k, errno.ENOSPC)})       # disk full from this call on
+                stats.count('persistent_fault_cases')
             for e in ERRNOS.get(ev[0], [errno.EIO]):
                 r1 = one({k: e})
                 if pairs and len(log) <= 14:
@@ -306,7 +317,7 @@ def systematic(shard, nshards):
         for owp in (False, True):
             for rm in (True, False):
                 for text in (False, True):
-                    for perms in (None, 0o600, 0o644, 0o755):
+                    for perms in (None, 0o600, 0o644, 0o755, 0o666):
                         for um in (0, 0o022, 0o077):
                             for dest in ('absent', 'present'):
                                 for part in ('absent', 'present'):
@@ -356,7 +367,8 @@ def replay(witness):
             check_scenario_strace(witness['scn'], st, viol)
         return found[0] if found else None
     scn = witness['scn']
-    faults = {int(k): int(e) for k, e in witness.get('faults', [])}
+    faults = {(k if k == 'persist' else int(k)): (tuple(e) if isinstance(e, list) else int(e))
+              for k, e in witness.get('faults', [])}
     d = tempfile.mkdtemp(prefix='verif-c05r-')
     try:
         res = F.run_in_process(fu, scn, os.path.join(d), faults=faults or None)
